@@ -604,7 +604,7 @@ func (x *Exec) verifyFunc(fn *ssa.Function, ct *Contract) {
 	seen := map[string]map[ssa.Value]bool{}
 	for _, b := range fn.Blocks {
 		for _, in := range b.Instrs {
-			if d, ok := in.(*ssa.DebugRef); ok && !d.IsAddr {
+			if d, ok := in.(*ssa.DebugRef); ok {
 				if id, ok := d.Expr.(interface{ String() string }); ok {
 					_ = id
 				}
@@ -1033,8 +1033,11 @@ func (x *Exec) loopEdge(p *Path, li *loopInfo, from *ssa.BasicBlock, phis []*ssa
 		for _, ax := range frameAxioms(lf, base, hb) {
 			p.assume(ax)
 		}
+		x.seedFrame(p, lf, base, hb)
 		p.assume(fmt.Sprintf("(>= (next %s) (next %s))", hb, p.H))
-		p.assume(fmt.Sprintf("(= (TrLen %s) (TrLen %s))", hb, p.H)) // refined by invariants when callbacks are involved
+		if !x.loopHasCallbacks(li) {
+			p.assume(fmt.Sprintf("(and (= (TrLen %s) (TrLen %s)) (= (TrA %s) (TrA %s)) (= (TrB %s) (TrB %s)))", hb, p.H, hb, p.H, hb, p.H))
+		}
 		p.H = hb
 		p.assume(fmt.Sprintf("(wf %s)", hb))
 		p.assume(freshOwn(base, hb))
@@ -1139,6 +1142,9 @@ func (x *Exec) exitNormal(p *Path, results []SV, in ssa.Instruction) {
 		}
 		x.oblig(p, "ensures/"+en.Label, s, en.Props, x.pos(in))
 	}
+	if !ct.Flags["callbacks"] && !ct.Flags["pure"] {
+		x.oblig(p, "exit/trace-unchanged", fmt.Sprintf("(and (= (TrLen %s) (TrLen %s)) (= (TrA %s) (TrA %s)) (= (TrB %s) (TrB %s)))", p.H, p.H0, p.H, p.H0, p.H, p.H0), ct.Props, x.pos(in))
+	}
 	if ct.Flags["pure"] {
 		x.oblig(p, "pure/heap-unchanged", fmt.Sprintf("(= %s %s)", p.H, p.H0), ct.Props, x.pos(in))
 	} else if p.H != p.wfKnown && !ct.Flags["nowf"] {
@@ -1226,4 +1232,94 @@ func freshOwn(Ha, Hb string) string {
 	return fmt.Sprintf("(and (forall ((r Int)) (! (=> (and (>= r (next %s)) (= (select (Kind %s) r) KLIST)) (>= (select (Larr %s) r) (next %s))) :pattern ((select (Larr %s) r)))) "+
 		"(forall ((r Int)) (! (=> (and (>= r (next %s)) (= (select (Kind %s) r) KOBJ)) (>= (select (Omap %s) r) (next %s))) :pattern ((select (Omap %s) r)))))",
 		Ha, Hb, Hb, Ha, Hb, Ha, Hb, Hb, Ha, Hb)
+}
+
+// loopHasCallbacks: does the loop body call an unknown function value or a contract that may do so?
+func (x *Exec) loopHasCallbacks(li *loopInfo) bool {
+	for b := range li.body {
+		for _, in := range b.Instrs {
+			ci, ok := in.(ssa.CallInstruction)
+			if !ok {
+				continue
+			}
+			c := ci.Common()
+			if _, isB := c.Value.(*ssa.Builtin); isB {
+				continue
+			}
+			key := x.calleeKey(c)
+			if key == "" {
+				return true // call through a function value
+			}
+			if ct := x.cf.ByFunc[key]; ct != nil && ct.Flags["callbacks"] {
+				return true
+			}
+			if ct := x.cf.ByFunc[key]; ct == nil && !c.IsInvoke() {
+				// contract-less in-package callee is inlined: conservatively assume it may call back
+				if callee := c.StaticCallee(); callee != nil && callee.Pkg != nil && callee.Pkg.Pkg.Name() == "anytype" {
+					switch fnKey(callee) {
+					case "newString", "newBool", "newInt", "newFloat", "newNil":
+					default:
+						return true
+					}
+				}
+			}
+		}
+	}
+	return false
+}
+
+// seedFrame instantiates the frame axioms for the reference parameters of the function under
+// verification, so that ground terms about them exist in the new heap (E-matching needs a seed).
+func (x *Exec) seedFrame(p *Path, fs *frameSet, base, hb string) {
+	in := func(t string, set []string) bool {
+		for _, s := range set {
+			if s == t {
+				return true
+			}
+		}
+		return false
+	}
+	var names []string
+	for n := range x.cur.params {
+		names = append(names, n)
+	}
+	sort.Strings(names)
+	for _, n := range names {
+		v := x.cur.params[n]
+		if v.K != KTerm {
+			continue
+		}
+		var comps []string
+		switch v.S {
+		case SRefL:
+			comps = []string{"Kind", "Lptr"}
+			if !in(v.T, fs.lists) && !fs.all {
+				comps = append(comps, "Larr", "Loff", "Llen", "Lcap")
+			}
+		case SRefO:
+			comps = []string{"Kind", "Optr"}
+			if !in(v.T, fs.objs) && !fs.all {
+				comps = append(comps, "Omap")
+			}
+		default:
+			continue
+		}
+		if fs.all {
+			comps = nil
+		}
+		for _, c := range comps {
+			p.assume(fmt.Sprintf("(=> (< %s (next %s)) (= (select (%s %s) %s) (select (%s %s) %s)))", v.T, base, c, hb, v.T, c, base, v.T))
+		}
+		if v.S == SRefL && !fs.all {
+			arr := fmt.Sprintf("(select (Larr %s) %s)", base, v.T)
+			conds := []string{fmt.Sprintf("(< %s (next %s))", arr, base)}
+			for _, l := range fs.lists {
+				conds = append(conds, fmt.Sprintf("(not (= %s (select (Larr %s) %s)))", arr, base, l))
+			}
+			for _, a := range fs.arrs {
+				conds = append(conds, fmt.Sprintf("(not (= %s %s))", arr, a))
+			}
+			p.assume(fmt.Sprintf("(=> (and %s) (= (select (Mem %s) %s) (select (Mem %s) %s)))", strings.Join(conds, " "), hb, arr, base, arr))
+		}
+	}
 }
